@@ -8,7 +8,7 @@ CONFIG = {
         "check": "check_case", "monitor": "monitor_case", "model_out": "model_out",
         "case_type": "case",
         "ops_path": [],             # the input term is the op list itself
-        "n_quick": 600, "n_thorough": 20000, "shard": 100,
+        "n_quick": 1200, "n_thorough": 20000, "shard": 100,
     }],
     "rule": "op lists of 3-33 calls on the real attribute.New service (real event.System, scripted modifier.Eval): "
             "AddTarget (1-3 units from the id pool {1,2,3}, late and duplicate registrations, id 4 never registered), "
